@@ -188,6 +188,51 @@ def rename_checks(failures, count):
                     failures.append(f"rename_values{targets}: returned but not applied completely: names {after[0]}, keys {after[1]}, is_initializer {after[2]}")
 
 
+def rename_across_graphs(failures, count):
+    """A rename set that spans several graphs: when ANY group is rejected (collision outside the set, duplicate target,
+    empty name) no graph may have lost or re-keyed an initializer."""
+    def mk():
+        w0 = ir.Value(name="w0", const_value=ir.tensor([1.0], name="w0"))
+        w1 = ir.Value(name="w1", const_value=ir.tensor([2.0], name="w1"))
+        s0 = ir.Value(name="s0", const_value=ir.tensor([3.0], name="s0"))
+        s1 = ir.Value(name="s1", const_value=ir.tensor([4.0], name="s1"))
+        t0 = ir.Value(name="t0", const_value=ir.tensor([5.0], name="t0"))
+        sub = ir.Graph([], [], nodes=[], initializers=[s0, s1], name="sub")
+        sub2 = ir.Graph([], [], nodes=[], initializers=[t0], name="sub2")
+        holder = ir.Node("", "If", inputs=[], num_outputs=1, attributes=[ir.AttrGraph("then_branch", sub), ir.AttrGraph("else_branch", sub2)])
+        main = ir.Graph([], [], nodes=[holder], initializers=[w0, w1], name="main")
+        return main, sub, sub2, dict(w0=w0, w1=w1, s0=s0, s1=s1, t0=t0)
+
+    def snap(graphs, vals):
+        return ([(g.name, list(g.initializers.keys()), [id(v) for v in g.initializers.values()]) for g in graphs],
+                [(k, v.name, v.is_initializer(), None if v.graph is None else v.graph.name) for k, v in vals.items()])
+    scenarios = [
+        (("w0", "s0"), ("w_new", "s1")),          # second graph collides with an initializer outside the set
+        (("s0", "w0"), ("s_new", "w1")),          # first-listed ok, main graph collides
+        (("w0", "s0", "t0"), ("a", "b", "")),     # third graph: empty name
+        (("w0", "s0", "s1"), ("a", "dup", "dup")),  # duplicate targets inside one graph
+        (("t0", "s0", "w0"), ("x", "y", "w1")),
+    ]
+    for names, targets in scenarios:
+        for order in itertools.permutations(range(len(names))):
+            count[0] += 1
+            main, sub, sub2, vals = mk()
+            graphs = [main, sub, sub2]
+            before = snap(graphs, vals)
+            try:
+                _convenience.rename_values([vals[names[i]] for i in order], [targets[i] for i in order])
+                failures.append(f"rename_values across graphs {names}->{targets}: expected a rejection")
+                continue
+            except ValueError:
+                pass
+            except Exception as e:  # noqa: BLE001
+                failures.append(f"rename_values across graphs {names}->{targets}: raised {e!r}"[:200])
+            after = snap(graphs, vals)
+            if after != before:
+                failures.append(f"rename_values across graphs {[names[i] for i in order]}->{[targets[i] for i in order]}: rejected but state changed "
+                                f"{before} -> {after}"[:600])
+
+
 def main():
     ap = argparse.ArgumentParser()
     ap.add_argument("--tier", default="quick")
@@ -198,6 +243,7 @@ def main():
     hist_checks(failures, count)
     namefix_checks(failures, count)
     rename_checks(failures, count)
+    rename_across_graphs(failures, count)
     known = {}
     kf = os.path.join(ROOT, "known_findings.json")
     if os.path.exists(kf):
